@@ -37,6 +37,13 @@ def real_c11(ta, tb):
         return ("raise", type(e).__name__)
     mutated = _snap(a) != tuple(ta) or _snap(b) != tuple(tb)
     r1 = (_snap(ra)[:2], _snap(rb)[:2])
+    # callers do mutate returned types in place (e.g. simplify_unary_expr sets `.signed = True`): the
+    # next call must not see that (results must not be shared between calls)
+    try:
+        ra.signed = not ra._signed
+        rb.bit_width = rb._bit_width + 1
+    except Exception:
+        pass
     a2, b2 = _mk(ta), _mk(tb)
     ra2, rb2 = c11_cast(a2, b2)
     det = (_snap(ra2)[:2], _snap(rb2)[:2]) == r1
